@@ -17,7 +17,11 @@ Tolerance of D: the aligned amplitude is a unitary mixture of the unaligned ampl
 holds for ANY value of the rotation angles, so the ill-conditioned acos/atan2 of the Wigner angles
 does not enter; the only error is the rounding of O(100) products/sums of numbers of modulus <= a
 few: relative 1e-13.  rtol = 1e-9 leaves four orders of margin; genuine differences observed so
-far are >= 1e-2.
+far are >= 1e-2.  Exception: DPD with a massless final-state particle.  The model computes the
+particle's mass as InvariantMass(p_i) = sqrt(E^2 - p^2), which for a light-like momentum is
+sqrt(O(eps) E^2) = O(1.5e-8 E), possibly imaginary; the zeta angle of that particle is then
+O(1e-8) and possibly complex, its Wigner-d deviates from a unitary matrix by O(1e-8), and the
+intensity by the same relative amount (observed 3e-9).  rtol = 1e-6 there.
 """
 from __future__ import annotations
 
@@ -36,8 +40,7 @@ import sympy as sp
 from ampform.helicity.align._spin import create_spin_range
 
 RTOL = 1e-9
-QUICK_CORPUS = ["lc_pkpi_hel", "jpsi_gpipi_hel", "etac_ll_hel", "jpsi_ppbar_hel", "jpsi_ksp_hel",
-                "psi2s_jpsipipi_hel", "d0_k3pi_hel", "jpsi_gpipi_f2_hel"]
+RTOL_MASSLESS_DPD = 1e-6
 
 
 # ------------------------------------------------------------------ A. spin ranges
@@ -74,7 +77,10 @@ def run_spin(seed, n, out):
             out["failures"].append({"signature": r[0], "what": r[1],
                                     "case": {"kind": "spin", "s_num": s.numerator, "s_den": s.denominator, "flag": f}})
     out["distinct"] += len(set(cases))
-    out["samples"].append({"create_spin_range": "5/2,True", "value": create_spin_range(2.5, True)})
+    try:
+        out["samples"].append({"create_spin_range": "5/2,True", "value": create_spin_range(2.5, True)})
+    except Exception as e:  # noqa: BLE001
+        out["samples"].append({"create_spin_range": "5/2,True", "raised": type(e).__name__})
     # garbage branch: non-half-integer magnitudes do not raise; record what comes back
     try:
         out["kinds"]["non_half_integer_0.3"] = str(create_spin_range(0.3))
@@ -168,36 +174,41 @@ def massless_needs_wigner(reaction):
     return any(p.mass == 0 and i not in direct for i, p in reaction.final_state.items())
 
 
-def lambdify_model(model):
-    expr = model.expression.doit()
-    kv = {k: v.doit() for k, v in model.kinematic_variables.items()}
-    full = expr.xreplace(kv)
-    syms = sorted(full.free_symbols, key=str)
-    return sp.lambdify(syms, full, cse=True), syms
-
-
 def evaluate(model, dpd, events, couplings):
-    f, syms = lambdify_model(model)
-    args = []
-    for s in syms:
+    """Two stages (never substitute the big angle expressions into the intensity: SymPy's Abs/
+    signsimp then takes minutes): momenta -> kinematic variables -> intensity."""
+    known = {}
+    for s in {x for v in model.kinematic_variables.values() for x in v.free_symbols}:
         n = str(s)
         if n[0] == "p" and n[1:].isdigit():
             i = int(n[1:]) - (1 if dpd else 0)
-            args.append(np.array([ev[i] for ev in events]))
-        elif n in couplings:
-            args.append(couplings[n])
-        else:
-            d = model.parameter_defaults.get(s)
-            if d is None:
-                raise KeyError(f"symbol {n} is neither a momentum nor a parameter")
-            args.append(d)
-    val = np.asarray(f(*args), dtype=complex)
+            known[s] = np.array([ev[i] for ev in events])
+    for s, d in model.parameter_defaults.items():
+        known[s] = couplings.get(str(s), d)
+    todo = dict(model.kinematic_variables)
+    while todo:
+        ready = [k for k, v in todo.items() if all(x in known for x in v.free_symbols)]
+        if not ready:
+            raise KeyError(f"kinematic variables with unknown symbols: {sorted(map(str, todo))[:5]}")
+        args = sorted({x for k in ready for x in todo[k].free_symbols}, key=str)
+        f = sp.lambdify(args, [todo[k].doit() for k in ready], cse=True)
+        vals = f(*[known[a] for a in args])
+        for k, v in zip(ready, vals):
+            known[k] = np.broadcast_to(np.asarray(v), (len(events),)).copy()
+            del todo[k]
+    expr = model.expression.doit()
+    syms = sorted(expr.free_symbols, key=str)
+    missing = [str(x) for x in syms if x not in known]
+    if missing:
+        raise KeyError(f"symbols {missing[:5]} are neither kinematic variables nor parameters")
+    g = sp.lambdify(syms, expr, cse=True)
+    val = np.asarray(g(*[known[x] for x in syms]), dtype=complex)
     return np.broadcast_to(val, (len(events),)).copy()
 
 
 def run_reaction(task):
     label, alignments, seed, nev, tier = task
-    t0 = time.time()
+    t0 = time.process_time()
     res = {"label": label, "failures": [], "evaluations": 0, "distinct": 0, "kinds": {}, "samples": []}
 
     def kind(k, v=1):
@@ -227,7 +238,7 @@ def run_reaction(task):
             sig = ("axisangle" if al == "axisangle" else "dpd" if al.startswith("dpd") else "noalign") + "_formulate_raises"
             res["failures"].append({"signature": sig, "what": f"{label}: formulate() with alignment {al} raised {type(e).__name__}: {str(e)[:150]}",
                                     "case": {"kind": "model", "label": label, "alignment": al, "seed": seed, "nev": nev}})
-    if "none" not in models or not numeric_ok:
+    if "none" not in models or not numeric_ok or nev == 0:
         if not numeric_ok:
             kind("numeric_skipped_massless_below_root")
         return res
@@ -255,13 +266,14 @@ def run_reaction(task):
         rel = np.abs(val.real - ref) / np.maximum(np.abs(ref), 1e-300)
         relmax = float(np.max(rel[good])) if good.any() else float("nan")
         imag = float(np.max(np.abs(val.imag[good]))) if good.any() else 0.0
-        differs = (not good.any()) or relmax > RTOL or imag > RTOL * float(np.max(np.abs(ref)))
+        rtol = RTOL_MASSLESS_DPD if (dpd and any(p.mass == 0 for p in reaction.final_state.values())) else RTOL
+        differs = (not good.any()) or relmax > rtol or imag > rtol * float(np.max(np.abs(ref)))
         nontrivial = cls["max_spin2"] > 0
         if nontrivial:
             res["distinct"] += int(good.sum())
         k_first = int(np.argmax(np.where(good, rel, -1))) if good.any() else 0
         case = {"kind": "model", "label": label, "alignment": al, "seed": seed, "nev": nev, "event": k_first,
-                "aligned": float(val.real[k_first]), "unaligned": float(ref[k_first]), "rtol": RTOL}
+                "aligned": float(val.real[k_first]), "unaligned": float(ref[k_first]), "rtol": rtol}
         what = (f"{label}: intensity with alignment {al} = {val.real[k_first]:.12g} but unaligned = {ref[k_first]:.12g} "
                 f"at event {k_first} (max rel diff {relmax:.3g} over {int(good.sum())} events)")
         if cls["thinned"]:
@@ -278,25 +290,46 @@ def run_reaction(task):
         if len(res["samples"]) < 2:
             res["samples"].append({"reaction": label, "alignment": al, "unaligned": float(ref[0]), "aligned": float(val.real[0]),
                                    "max_rel_diff": relmax})
-    res["kinds"]["t_" + label] = round(time.time() - t0, 1)
+    res["kinds"]["t_" + label] = round(time.process_time() - t0, 1)
     return res
+
+
+QUICK_TASKS = [
+    ("lc_pkpi_hel/t0", ("axisangle", "dpd1", "dpd2", "dpd3")),
+    ("lc_pkpi_hel/t1", ("axisangle", "dpd1")),
+    ("jpsi_gpipi_hel/t0", ("axisangle",)),          # photon: known finding
+    ("jpsi_gpipi_hel/t0+m0", ("dpd2", "dpd3")),     # photon under DPD, complete J/psi helicities
+    ("etac_ll_hel/t0", ("axisangle",)),
+    ("jpsi_ppbar_hel/t0", ("axisangle",)),
+    ("psi2s_jpsipipi_hel/t0", ("axisangle", "dpd2")),
+    ("synth_2b_1_h_nu", ("axisangle",)),             # massless spin 1/2 (W -> e nu)
+    ("synth_2b_h_1_h", ("axisangle",)),
+    ("synth_3b_1_h_nu", ("axisangle", "dpd2")),      # massless spin 1/2 spectator
+    ("synth_3b_h_1_h00", ("axisangle", "dpd3")),
+]
+THOROUGH_CAN = ["lc_pkpi_can", "jpsi_gpipi_can", "etac_ll_can", "jpsi_ppbar_can"]
 
 
 def tasks_for(seed, n):
     tier = "thorough" if n >= 200 else "quick"
-    nev = 3 if tier == "quick" else 8
+    if tier == "quick":
+        return [(lab, als, seed, 3, tier) for lab, als in QUICK_TASKS], tier
+    nev = 8
     tasks = []
-    names = QUICK_CORPUS if tier == "quick" else None
+    import reactions
+
+    names = [x for x in reactions.names() if x.endswith("_hel")] + THOROUGH_CAN
     for label, r in L.corpus_single_topology(names):
-        if tier == "quick" and label in ("d0_k3pi_hel/t1", "d0_k3pi_hel/t2"):
-            continue
         tasks.append((label, L.ALIGNMENTS[1:], seed, nev, tier))
         cls = L.classify(r, "dpd1")
         (i0,) = r.initial_state
-        if len(r.final_state) == 3 and i0 in cls["thinned"]:
+        if len(r.final_state) == 3 and i0 in cls["thinned"] and label.split("/")[0] in (
+                "jpsi_gpipi_hel", "jpsi_gpipi_f2_hel", "jpsi_ksp_hel", "jpsi_gkk_hel"):
             tasks.append((label + "+m0", ("dpd1", "dpd2", "dpd3"), seed, nev, tier))
     for label, _ in L.synthetic_reactions(tier):
         tasks.append((label, L.ALIGNMENTS[1:], seed, nev, tier))
+    # most expensive first
+    tasks.sort(key=lambda t: (not t[0].startswith(("jpsi_ksp", "jpsi_gpipi_f2", "synth_3b", "lc_pkpi_can")), t[0]))
     return tasks, tier
 
 
@@ -315,7 +348,7 @@ def main(seed, n):
         out["distinct"] += r["distinct"]
         for k, v in r["kinds"].items():
             if k.startswith("t_"):
-                out["kinds"].setdefault("seconds_per_reaction", {})[k[2:]] = v
+                out["kinds"].setdefault("cpu_seconds_per_reaction", {})[k[2:]] = v
             else:
                 out["kinds"][k] = out["kinds"].get(k, 0) + v
         for s in r["samples"]:
